@@ -293,22 +293,23 @@ mutual
 /-- the smallest tier whose theorem speaks about this tree (given that `toPat` succeeds):
     1 = empty, nothing, anchors, One/Notone/Set, Multi, Concatenate, Alternate, Capture, Group;
     2 = + single-character loops; 3 = + Atomic, lookahead; 4 = + Loop/Lazyloop (general loops, any body);
-    5 = + `UpdateBumpalong`; 6 = + Ref (case-sensitive), BackRefCond, ExprCond; 7 = + lookbehind (and, in `InFrag`, the tree option
-    RightToLeft); 8 = + ECMAScript boundaries; 9 = balancing groups, unknown nodes -/
+    5 = + `UpdateBumpalong`; 6 = + Ref (case-sensitive), BackRefCond, ExprCond; 7 = + lookbehind (and, in `InFrag`, the tree
+    option RightToLeft) — every node type above read right to left, except the single-character loops; 8 = + right-to-left
+    single-character loops; 9 = + ECMAScript boundaries; 10 = balancing groups, case-insensitive Ref, unknown nodes -/
 def tier : GoNode → Nat
   | .empty => 1
   | .bare t =>
-    if t == opUpdateBumpalong then 5 else if t == opECMABoundary || t == opNonECMABoundary then 8 else 1
+    if t == opUpdateBumpalong then 5 else if t == opECMABoundary || t == opNonECMABoundary then 9 else 1
   | .char _ _ _ _ => 1
   | .set _ _ _ => 1
   | .multi _ _ _ => 1
-  | .ref _ ci _ => if ci then 9 else 6
-  | .charloop _ _ _ _ _ _ => 2
-  | .setloop _ _ _ _ _ _ => 2
+  | .ref _ ci _ => if ci then 10 else 6
+  | .charloop _ rtl _ _ _ _ => if rtl then 8 else 2
+  | .setloop _ rtl _ _ _ _ => if rtl then 8 else 2
   | .concat cs => tierList cs
   | .alt cs => tierList cs
   | .loop _ _ _ c => max 4 (tier c)
-  | .capture _ n c => if n == -1 then tier c else 9
+  | .capture _ n c => if n == -1 then tier c else 10
   | .group c => tier c
   | .poslook c => if lookDir c == some false then max 3 (tier c) else max 7 (tier c)
   | .neglook c => if lookDir c == some false then max 3 (tier c) else max 7 (tier c)
@@ -317,18 +318,20 @@ def tier : GoNode → Nat
   | .backrefcond2 _ y n => max 6 (max (tier y) (tier n))
   | .exprcond2 c y => max 6 (max (tier c) (tier y))
   | .exprcond3 c y n => max 6 (max (tier c) (max (tier y) (tier n)))
-  | .other _ => 9
+  | .other _ => 10
 def tierList : List GoNode → Nat
   | [] => 1
   | c :: cs => max (tier c) (tierList cs)
 end
 
-/-- **the fragment of tier `k`**: the root is the implicit capture of group 0, the translation succeeds with
-    every direction bit left-to-right, only node types of tiers `≤ k` occur, group 0 has slot 0, and — for a tree of
-    tier 6 or more, where groups are read back (`Ref`, `Testref`) — the writer numbers the capture slots by the group
-    numbers themselves (no `caps` map: the group numbers are dense) -/
+/-- **the fragment of tier `k`**: the root is the implicit capture of group 0, the translation succeeds in the
+    direction of the tree option RightToLeft (every leaf's direction bit is the direction of its position: the option's
+    outside lookarounds, right-to-left inside a lookbehind, left-to-right inside a lookahead), only node types of tiers
+    `≤ k` occur, the option RightToLeft only from tier 7 on, group 0 has slot 0, and — for a tree of tier 6 or more, where
+    groups are read back (`Ref`, `Testref`) — the writer numbers the capture slots by the group numbers themselves (no
+    `caps` map: the group numbers are dense) -/
 def InFrag (k : Nat) (X : TP) (ti : TreeInfo) (t : GoNode) : Bool :=
-  (toPatRoot X false t).isSome && decide (tier t ≤ k) && !ti.rtl && mapCapnum (mainCfg ti) 0 == 0 &&
+  (toPatRoot X ti.rtl t).isSome && decide (tier t ≤ k) && (!ti.rtl || decide (7 ≤ k)) && mapCapnum (mainCfg ti) 0 == 0 &&
     (decide (tier t < 6) || (writerCaps ti).2.isNone)
 
 /-! ## the simulation vocabulary -/
